@@ -30,6 +30,9 @@ func init() {
 
 func (c *Ctx) fn(name string, fields ...string) {
 	c.M.emit("fn\t" + name + "\t" + strings.Join(fields, "\t"))
+	if len(heldAlarms) > 0 {
+		c.M.flushHeldAlarms()
+	}
 }
 
 // ---------------------------------------------------------------- parser observation
@@ -72,9 +75,11 @@ func onceParse(root byte, input string) (res string) {
 	if root == 'L' {
 		l, e := at.ParseList(input)
 		c, err, isNil = l, e, l == nil
+		holdError(e, "ParseList")
 	} else {
 		o, e := at.ParseObject(input)
 		c, err, isNil = o, e, o == nil
+		holdError(e, "ParseObject")
 	}
 	switch {
 	case !isNil && err == nil:
@@ -98,7 +103,11 @@ func obsParse(root byte, input string) string {
 }
 
 func (c *Ctx) parseLine(root byte, input string, expect string) string {
+	if rtCount++; rtCount%23 == 0 {
+		poisonParses()
+	}
 	obs := obsParse(root, input)
+	c.M.flushHeldAlarms()
 	c.fn("parse", string(root), hex.EncodeToString([]byte(input)), obs, expect)
 	k := obs
 	if i := strings.IndexByte(k, ' '); i > 0 {
@@ -112,8 +121,36 @@ func (c *Ctx) parseLine(root byte, input string, expect string) string {
 	return obs
 }
 
+// poisonParses: between the judged records the library is handed inputs it rejects or repairs (unknown and truncated
+// escapes inside otherwise complete strings, text cut inside a string / literal / key, ill-formed UTF-8, stray
+// brackets).  Nothing is recorded: what matters is that a failed or repaired call leaves no state behind that a later,
+// judged call could pick up (a pooled buffer that is only reset on success, a pending key or line counter).
+var poisonDocs = []string{`["left\xtrunc"]`, `["left\u12"]`, `{"k\qey":1}`, `["abc`, `["abc\`, `[tru`, `{"pending":`, `{"pending"`, "[\"\xff\"]", `[1,2`,
+	`{"a":{"b":[1,{"c":"d`, `["\ud800"]`, `["\ud83d\u0041tail"]`, `]`, `}`, ``, `{"a":1}}`, "[\n\n\n\"x\\", `["ok","left\u00"]`}
+var poisonCount int
+
+func poisonParses() {
+	poisonCount++
+	for i := 0; i < 3; i++ {
+		d := poisonDocs[(poisonCount*3+i)%len(poisonDocs)]
+		func() {
+			defer func() { recover() }()
+			at.ParseList(d)
+		}()
+		func() {
+			defer func() { recover() }()
+			at.ParseObject(d)
+		}()
+	}
+}
+
+var rtCount int
+
 // rtLine: String(), parse it back, Equals, and once more.
 func (c *Ctx) rtLine(t *Tree) {
+	if rtCount++; rtCount%23 == 0 {
+		poisonParses()
+	}
 	root := byte('L')
 	if t.K == '{' {
 		root = 'O'
@@ -128,7 +165,7 @@ func (c *Ctx) rtLine(t *Tree) {
 		eq, pres2 = "-", "-"
 		if root == 'L' {
 			l := t.Build().(at.List)
-			text = l.String()
+			text = holdString(l.String(), "List.String")
 			pres = obsParse(root, text)
 			if p, err := at.ParseList(text); err == nil && p != nil {
 				eq = btok(p.Equals(l) && l.Equals(p))
@@ -136,7 +173,7 @@ func (c *Ctx) rtLine(t *Tree) {
 			}
 		} else {
 			o := t.Build().(at.Object)
-			text = o.String()
+			text = holdString(o.String(), "Object.String")
 			pres = obsParse(root, text)
 			if p, err := at.ParseObject(text); err == nil && p != nil {
 				eq = btok(p.Equals(o) && o.Equals(p))
@@ -165,7 +202,7 @@ func (c *Ctx) rtContainer(v any) {
 		eq, pres2 = "-", "-"
 		if root == 'L' {
 			l := v.(at.List)
-			text = l.String()
+			text = holdString(l.String(), "List.String")
 			pres = obsParse(root, text)
 			if p, err := at.ParseList(text); err == nil && p != nil {
 				eq = btok(p.Equals(l) && l.Equals(p))
@@ -173,7 +210,7 @@ func (c *Ctx) rtContainer(v any) {
 			}
 		} else {
 			o := v.(at.Object)
-			text = o.String()
+			text = holdString(o.String(), "Object.String")
 			pres = obsParse(root, text)
 			if p, err := at.ParseObject(text); err == nil && p != nil {
 				eq = btok(p.Equals(o) && o.Equals(p))
@@ -1212,7 +1249,7 @@ func (c *Ctx) fmtLine(t *Tree, n int) {
 		if t.K == '[' {
 			l := t.Build().(at.List)
 			before := treeOf(l).Token()
-			s := l.FormatString(n)
+			s := holdString(l.FormatString(n), "List.FormatString")
 			if treeOf(l).Token() != before {
 				return "modified"
 			}
@@ -1220,7 +1257,7 @@ func (c *Ctx) fmtLine(t *Tree, n int) {
 		}
 		o := t.Build().(at.Object)
 		before := treeOf(o).Token()
-		s := o.FormatString(n)
+		s := holdString(o.FormatString(n), "Object.FormatString")
 		if treeOf(o).Token() != before {
 			return "modified"
 		}
@@ -1233,6 +1270,7 @@ func runC16(c *Ctx) {
 	r := c.R
 	c.St.Rule = "value trees x indents; non-trivial = depth >= 2 or a string needing an escape; distinct by (tree, indent)"
 	c.derivedCorners("C16")
+	c.overridingString("C16")
 	c.lateDerived("C16")
 	indents := []int{-1, 0, 1, 2, 4, 10, 11}
 	if !c.Quick {
@@ -1307,7 +1345,7 @@ func (d *errDoc) scalar() {
 		d.add("}")
 		return
 	}
-	switch d.r.Intn(7) {
+	switch d.r.Intn(8) {
 	case 0:
 		d.add("null")
 	case 1:
@@ -1318,9 +1356,27 @@ func (d *errDoc) scalar() {
 		d.add("1.5")
 	case 4:
 		d.add(`"s\n\"x"`)
+	case 5:
+		// characters whose low byte (or low 16 bits) is a character the parser reacts to — line feed, carriage return, quote,
+		// backslash, comma, colon, brackets, space, tab: none of them is a line end or a delimiter
+		d.add("\"" + lookalikes[d.r.Intn(len(lookalikes))] + lookalikes[d.r.Intn(len(lookalikes))] + "x" + lookalikes[d.r.Intn(len(lookalikes))] + "\"")
 	default:
 		// raw line feeds inside a string are characters of the input like any other: they count as lines
 		d.add("\"a\nb\n\nc\\\"d\n\u2028\u2029\u0085\"")
+	}
+}
+
+var lookalikes = []string{"\u010a", "\u020a", "\u0a0a", "\uff0a", "\U0001f60a", "\U0001000a", "\u010d", "\u0122", "\uff02", "\u015c", "\u012c", "\u013a", "\u015b", "\u015d", "\u017b", "\u017d", "\u0120", "\u0109", "\U00010022", "\U0001005c"}
+
+// repeated emits the same multi-line element text twice (or three times) in a row: consecutive siblings that are equal
+// byte for byte, line feeds included.
+func (d *errDoc) repeated() {
+	subs := []string{"{\n\"id\": 1,\n\"v\": [1,\n2]\n}", "{\"a\":\n\n{\"b\":\n1}}", "[\n1,\n[\n]\n]", "\"two\nlines\"", "{\n}", "{\"k\n\":\n\"v\n\"\n}"}
+	sub := subs[d.r.Intn(len(subs))]
+	d.add(sub)
+	for n := 1 + d.r.Intn(2); n > 0; n-- {
+		d.add(",")
+		d.add(sub)
 	}
 }
 
@@ -1349,6 +1405,10 @@ func (d *errDoc) value(depth int, inject *int, kind int, inObj bool) {
 					}
 					continue
 				}
+				if r.Chance(12) {
+					d.repeated()
+					continue
+				}
 				d.value(depth+1, inject, kind, false)
 			}
 			d.add("]")
@@ -1366,6 +1426,8 @@ func (d *errDoc) value(depth int, inject *int, kind int, inObj bool) {
 				}
 				if d.r.Chance(15) {
 					d.add("\"k\n" + strconv.Itoa(i) + "\"") // a key with a raw line feed
+				} else if d.r.Chance(12) {
+					d.add("\"k" + lookalikes[d.r.Intn(len(lookalikes))] + strconv.Itoa(i) + lookalikes[d.r.Intn(len(lookalikes))] + "\"")
 				} else {
 					d.add(`"k` + strconv.Itoa(i) + `"`)
 				}
